@@ -7,6 +7,7 @@ import RagcModel.Props.C10
 import RagcModel.Props.C12
 import RagcModel.Lemmas.WriterBases
 import RagcModel.Lemmas.WriterSamples
+import RagcModel.Lemmas.WriterMain
 /-!
 # C01 — lossless round trip: create then extract returns every sample exactly
 
@@ -51,9 +52,12 @@ decisions, all inputs over the literal codes, every `k ≥ 1`:
 * `read_write_samples`: the decoder's last stage returns all samples with the input's catalogue
   and bases and no violation.
 
-NOT proved — the target `read_write : DecisionsOK … → writeArchive … = some bs → decodeArchive bs zd
-= ok d ∧ d.catalogue = catalogueOf inp ∧ d.bases = basesOf inp ∧ d.violations = []`. What is
-missing is glue only, listed precisely at the end of this file (`read_write` — status).
+* **`read_write`** (end of this file): the END-TO-END theorem — for well-formed decisions, any ZSTD
+  with the two C12 facts, inputs over the literal codes: the independent decoder reads the bytes of
+  the reference writer and returns exactly the input's catalogue and bases with an empty list of
+  breached format rules. The stages are theorems of their own in `Props/C02.lean`
+  (`read_write_container`, `read_write_catalogue`, `read_write_groups`) and here
+  (`read_write_samples`).
 -/
 namespace Ragc.Props.C01
 open Ragc.Segment Ragc.Range Ragc.Packs Ragc.Roundtrip
@@ -434,45 +438,77 @@ example : Ragc.Writer.basesOf exInp = [[[0, 1, 2, 3, 0, 1, 2, 3, 0, 1], [2, 4, 1
       (exDec.pieces.flatten) =
       [([99], [⟨16, 0, false, 6⟩, ⟨0, 1, true, 7⟩]), ([100], [⟨0, 2, false, 3⟩])] := by decide
 
-/-! ### `read_write` — status
+/-! ### the end-to-end theorem -/
 
-Target (DESIGN §5 C01.5), for `bs` = the bytes of the reference writer:
+open Ragc.Writer Ragc.Agc3 in
+/-- **decode ∘ write = id.** For EVERY configuration, input and decision vector that is well
+formed (`DecisionsOK cfg inp dec`, decidable: `k ≥ 1`; `k`, `min_match_len`, `segment_size` are
+`u32` with `segment_size + k ≤ 2^31`; fewer than `2^32` samples / contigs per sample / pieces per
+contig; names over the bytes 1..127; contigs non-empty and shorter than 4 GiB; the piece lengths
+of every contig tile it with `k`-overlaps; group ids distinct `u32`s, every group has between 1 and
+`2^31 - 2` members; pieces and groups point at each other), every input over the LZ literal codes
+(`codesOK`: ragc's 0..15, 30, 32 are), and ANY ZSTD pair with the two facts of C12
+(`zd ∘ zc = some`, frames never empty): if the reference writer answers (`writeArchive … = some
+bs`: it does unless `min_match_len < 4`, a part/stream size leaves `u64`/`u32`, or the file
+exceeds `2^63 - 1` bytes), then the INDEPENDENT decoder reads `bs` and
 
-    read_write : DecisionsOK cfg inp dec → (∀ l x, zd (zc l x) = some x) → (∀ l x, zc l x = [] → x = []) →
-      codesOK inp → writeArchive cfg inp dec zc = some bs →
-      ∃ d, decodeArchive bs zd = .ok d ∧ d.catalogue = catalogueOf inp ∧ d.bases = basesOf inp ∧
-        d.violations = []
+* its catalogue (sample names with their contig names, in order) is the input's,
+* the bases of every contig are the input's,
+* its list of breached format rules is EMPTY (C02: fixed streams, file version, params, batch
+  sizes, stream names, one reference part per LZ group, metadata convention, pack cardinality,
+  final separator, placeholder, unused groups, id ↦ (pack, entry) addressing, raw lengths, `≥ k`).
 
-No bound `k ≥ 3` is forced: the independent decoder has no "2-bit packed?" heuristic; `k ≥ 1` is
-part of `DecisionsOK`.
+ALL decisions: any tiling of each contig (segmentation and splits), any group and orientation per
+piece, any arrival order inside each group (the first member of an LZ group is its reference),
+any group creation order, any tuple-packing flags. No bound `k ≥ 3` is needed: the independent
+decoder has no "2-bit packed?" heuristic (that heuristic is in ragc's own reader, C08's business).
+The hypotheses that the composition forced beyond the original brief are all inside `DecisionsOK`
+(the C03 bounds: names 1..127, `u32` counts, ids below `2^31`, lengths below `2^32`).
 
-Proved, with these exact names (all decisions, all inputs, any `zc`/`zd` with the two C12 facts):
-`Props.C02.container_returns_every_part` (bytes → every part of every stream),
-`Props.C02.group_roundtrip` (parts of a group → decoded group, no violation),
-`Props.C02.read_write_segments` (descriptor → member data),
-`read_write_bases` (group table → bases of every contig, no violation), `read_write_samples`
-(catalogue tables + group table → all samples: catalogue = `catalogueOf inp`, bases = `basesOf inp`,
-no violation), `pieces_tile`;
-and the catalogue codecs in C03 (`sample_names_roundtrip`, `names_roundtrip`, `details_roundtrip`).
+Proof: `Props.C02.read_write_container` (C13) → fixed streams → `read_write_catalogue` (C03) →
+`read_write_groups` (C12, C02 `packs_addressing`, pack splitter) → `read_write_samples`
+(C09, C07, tiling). -/
+theorem read_write (cfg : Cfg) (inp : List Sample) (dec : Decisions)
+    (zc : Nat → List Nat → List Nat) (zd : List Nat → Option (List Nat)) (bs : List Nat)
+    (hdec : DecisionsOK cfg inp dec) (hz : ∀ l x, zd (zc l x) = some x) (hne : ∀ l x, zc l x = [] → x = [])
+    (hcodes : codesOK inp) (hw : writeArchive cfg inp dec zc = some bs) :
+    ∃ d, decodeArchive bs zd = .ok d ∧ d.catalogue = catalogueOf inp ∧ d.bases = basesOf inp ∧
+      d.violations = [] := by
+  obtain ⟨d, h1, h2, h3, h4, _⟩ := Ragc.WriterLemmas.read_write_main cfg inp dec zc zd bs hdec hz hne hcodes hw
+  exact ⟨d, h1, h2, h3, h4⟩
 
-Missing for `read_write` (pure composition, no new idea; `decodeArchive` is already split into
-the stages named below in `Model/Agc3.lean`):
-1. instantiate `container_returns_every_part` with `Writer.regNames` / `Writer.partList`: the names
-   are distinct and NUL-free (`stream_name_injective`, `ref_ne_delta`, `xname_not_fixed`), and
-   compute `partsOf (partList …) name` for the seven fixed names and for `deltaName g` / `refName g`;
-2. `checkFixedStreams`, `checkTypeInfo` (a closed computation on `Writer.fileTypeInfo`), `readParams`
-   (`le32 (leBytes 4 v) = v` for `v < 2^32`) return the accumulator unchanged;
-3. `decodeCatalogue`: `parseDetailsPart (detailsPart zc b)` gives back the five frames
-   (`decNats 10 ∘ encNats`, sizes `< 2^32` by `sizesFit`), then per batch `names_roundtrip` and
-   `details_roundtrip` (with `fits (shape) b`), folded over `Details.storeBatches` by `batchStep`;
-4. `decodeGroups`: `xStreams` over the directory (`decoder_parses_names`; fixed names do not parse),
-   `addStream` over distinct group ids gives one `Group` per group with its two part lists, then
-   `group_roundtrip` folded over them; `findGroup` in the result; `checkUnused` (every group has a
-   member whose descriptor names it);
-5. (done: `read_write_samples`) `decodeSamples` = `read_write_bases` folded over contigs and samples;
-   what remains is to feed it the tables of step 3 and the group table of step 4.
-Until then these steps are covered by the correspondence run only: the independent decoder decodes
-every real archive with `violations = []` and equal to the input, and the reference writer
-reproduces every real archive byte for byte (C02 harness). -/
+/-- Non-vacuity, evaluated: two samples; `k = 3`, `min_match_len = 10`. Sample `A` has a contig of
+10 symbols cut into two 3-overlapping pieces and a contig of 3 symbols (with an `N`); sample `B`
+has a contig that differs from `A`'s in one base. LZ group 16 holds the first piece of `A` (its
+reference) and the first piece of `B` (a real delta, `ABCCAB`); raw group 0 holds the other three
+pieces, one of them stored reverse-complemented. Toy ZSTD `zc l x = l :: x`, `zd = tail`. -/
+private def exCfg2 : Ragc.Writer.Cfg := ⟨3, 10, 10, 17⟩
+private def exInp2 : List Ragc.Writer.Sample :=
+  [⟨[65], [⟨[99], [0, 1, 2, 3, 0, 1, 2, 3, 0, 1]⟩, ⟨[100], [2, 4, 1]⟩]⟩,
+   ⟨[66], [⟨[99], [0, 1, 2, 2, 0, 1, 2, 3, 0, 1]⟩]⟩]
+private def exDec2 : Ragc.Writer.Decisions :=
+  ⟨[[[⟨6, 16, 0, false⟩, ⟨7, 0, 0, true⟩], [⟨3, 0, 1, false⟩]], [[⟨6, 16, 1, false⟩, ⟨7, 0, 2, false⟩]]],
+   [⟨16, false, [(0, 0, 0), (1, 0, 0)]⟩, ⟨0, false, [(0, 0, 1), (0, 1, 0), (1, 0, 1)]⟩]⟩
+
+example : Ragc.Writer.DecisionsOK exCfg2 exInp2 exDec2 ∧ Ragc.Writer.codesOK exInp2 ∧
+    (∀ l x, zdToy (zcToy l x) = some x) ∧ (∀ l x, zcToy l x = [] → x = []) :=
+  ⟨by decide, by decide, fun _ _ => rfl, fun _ _ h => by simp [zcToy] at h⟩
+
+-- The writer answers on this input and `read_write` applies: the decoder returns both samples with
+-- all bases, no violation. `decide +kernel` is used ONLY for "the writer answers": a closed
+-- evaluation of the executable model (not a step of any theorem); the kernel unfolds the
+-- well-founded recursions (`Varint.digits`, `intToBase64`, `storeBatches`, `LzDiff.encLoop`) that
+-- elaborator-side `decide` leaves stuck.
+set_option maxRecDepth 100000 in
+example : ∃ bs d, Ragc.Writer.writeArchive exCfg2 exInp2 exDec2 zcToy = some bs ∧
+    Ragc.Agc3.decodeArchive bs zdToy = .ok d ∧
+    d.catalogue = [([65], [[99], [100]]), ([66], [[99]])] ∧
+    d.bases = [[[0, 1, 2, 3, 0, 1, 2, 3, 0, 1], [2, 4, 1]], [[0, 1, 2, 2, 0, 1, 2, 3, 0, 1]]] ∧
+    d.violations = [] := by
+  have hsome : (Ragc.Writer.writeArchive exCfg2 exInp2 exDec2 zcToy).isSome = true := by decide +kernel
+  obtain ⟨bs, hbs⟩ := Option.isSome_iff_exists.mp hsome
+  obtain ⟨d, h1, h2, h3, h4⟩ := read_write exCfg2 exInp2 exDec2 zcToy zdToy bs (by decide)
+    (fun _ _ => rfl) (fun _ _ h => by simp [zcToy] at h) (by decide) hbs
+  exact ⟨bs, d, hbs, h1, by rw [h2]; decide, by rw [h3]; decide, h4⟩
 
 end Ragc.Props.C01
